@@ -16,6 +16,8 @@ import (
 //   <out>.trace   "# history <n> seed <s>" then one line per call (read by the Lean driver)
 //   <out>.ops     the abstract operations, one JSON array per history (for replay / shrinking)
 
+var hangSeconds = 120
+
 type runOpts struct {
 	crashAt, failAt   int
 	stateOut, stateIn string
@@ -53,7 +55,7 @@ func runHistory(root string, ops []Op, w *bufio.Writer, seed int64) (lines int, 
 	go func() {
 		select {
 		case <-done:
-		case <-time.After(120 * time.Second):
+		case <-time.After(time.Duration(hangSeconds) * time.Second):
 			fmt.Fprintf(w, "# HANG\n")
 			w.Flush()
 			fmt.Fprintf(os.Stderr, "HANG in history seed=%d\n", seed)
@@ -62,6 +64,13 @@ func runHistory(root string, ops []Op, w *bufio.Writer, seed int64) (lines int, 
 	}()
 	for _, op := range ops {
 		ex.Run(op)
+	}
+	if opts.crashAt < 0 {
+		// the process dies after its last call, without Close (pending writes are lost)
+		fmt.Fprintf(w, "crash at=0 count\n")
+		w.Flush()
+		ex.saveState()
+		os.Exit(77)
 	}
 	close(done)
 	if ex.db != nil {
@@ -95,6 +104,20 @@ func recoveryOps(ex *Exec) []Op {
 			ops = append(ops, Op{Op: "aidx", Field: l.Path})
 		}
 	}
+	// life goes on: every known object is rewritten with a SHORT value (a leftover of the
+	// crash must not leak into it), then a clean restart reads everything back
+	for _, k := range ks {
+		// (every field distinct per object: no uniqueness constraint can refuse the rewrite)
+		sp := Spec{K: k, A: int64(1000 + k), B: uint32(1000 + k), F: uint64(4600000000000000000 + k), G: uint32(1000000000 + k),
+			S: hexs(fmt.Sprintf("r%d", k)), Tm: int64(1000 + k), I8: 1, U16: uint16(1000 + k), Y: int64(1000 + k), Z: hexs(fmt.Sprintf("z%d", k)),
+			HasP: true, X: uint64(1000 + k), W: hexs(fmt.Sprintf("w%d", k)), HasQ: true, D: int16(1000 + k), L: -1, M: -1}
+		ops = append(ops, Op{Op: "ins", Spec: &sp})
+	}
+	ops = append(ops, Op{Op: "close"}, Op{Op: "reopen"}, Op{Op: "count"}, Op{Op: "control"}, Op{Op: "consistent"})
+	for _, k := range ks {
+		ops = append(ops, Op{Op: "get", K: k}, Op{Op: "disk", K: k})
+	}
+	ops = append(ops, Op{Op: "all"}, Op{Op: "ls"})
 	return ops
 }
 
@@ -114,6 +137,7 @@ func main() {
 	flag.BoolVar(&opts.keepRoot, "keep", false, "keep the database directory")
 	flag.BoolVar(&opts.golden, "golden", false, "continue on a copy of a golden directory (needs -state-in): sweep, further writes, restart, sweep")
 	flag.BoolVar(&opts.recover, "recover", false, "run the recovery sequence on an existing directory (needs -state-in)")
+	flag.IntVar(&hangSeconds, "hang", 120, "seconds after which a history is declared hung")
 	sleepdiv := flag.Int("sleepdiv", 1, "divide the package's sleeps (shim build only)")
 	conc := flag.String("conc", "", "run a concurrency scenario: first | progress | lin")
 	seconds := flag.Int("seconds", 3, "duration of the progress scenario")
